@@ -50,15 +50,27 @@ func run(r *core.Run) {
 	r.Assume("proxymodel (ref/proxymodel) is a faithful transcription of ECMA-262 §10.1 (ordinary objects) and §10.5 (Proxy internal methods, ES2023 wording)")
 	r.Assume("bare (non-proxy) ordinary objects of the engine behave per spec for the dump operations (Reflect.ownKeys / getOwnPropertyDescriptor / getPrototypeOf / isExtensible) used to observe states - that is property C04's subject")
 	r.Assume("a Proxy has no state of its own besides target, handler and callability, so the state of (proxy, target) is the state of the target")
+	// order: regression corpus; first BFS level of part A (cheap); part B, which may use the budget only up to a soft
+	// deadline so that part A is not starved on a loaded machine; remaining BFS levels of part A.
 	t0 := time.Now()
 	okCorpus := runCorpus(r)
 	t1 := time.Now()
-	okB := runPartB(r)
+	pa := newPartA(r)
+	okA := pa.advance(1)
 	t2 := time.Now()
-	okA := runPartA(r)
-	r.Set("wall_s_corpus_partB_partA", []float64{t1.Sub(t0).Seconds(), t2.Sub(t1).Seconds(), time.Since(t2).Seconds()})
+	soft := t2.Add(time.Duration(float64(hardStop(r).Sub(t2)) * 0.6))
+	okB := runPartB(r, soft)
+	t3 := time.Now()
+	okA = pa.advance(pa.maxLevels) && okA
+	r.Set("wall_s_corpus_A1_B_A2", []float64{t1.Sub(t0).Seconds(), t2.Sub(t1).Seconds(), t3.Sub(t2).Seconds(), time.Since(t3).Seconds()})
+	if !(okCorpus && okA && okB) {
+		r.Set("cut_by_time_budget", true)
+	}
 	r.Exhaustive(okCorpus && okA && okB)
 }
+
+// hardStop is a little before the core deadline: work units that are started later would overrun the budget.
+func hardStop(r *core.Run) time.Time { return r.Deadline.Add(-3 * time.Second) }
 
 // replay re-executes one recorded case.
 func replay(r *core.Run, raw json.RawMessage) {
